@@ -169,6 +169,98 @@ theorem pget_flattenedLoop (fuel : Nat) (ns : Ns) (fl : List Name) (parent : PDi
   | none => rfl
   | some v => simp [pget]
 
+theorem mem_keys_pinsert (k : Name) (v : Nat) (d : PDict) (x : Name) :
+    x ∈ (pinsert k v d).map Prod.fst ↔ x = k ∨ x ∈ d.map Prod.fst := by
+  induction d with
+  | nil => simp [pinsert]
+  | cons kv r ih =>
+    unfold pinsert
+    by_cases h : kv.1 = k
+    · simp only [h, if_true, List.map_cons, List.mem_cons]
+      constructor
+      · rintro (h1 | h1)
+        · exact .inl h1
+        · exact .inr (.inr h1)
+      · rintro (h1 | h1 | h1)
+        · exact .inl h1
+        · exact .inl h1
+        · exact .inr h1
+    · simp only [h, if_false, List.map_cons, List.mem_cons, ih]
+      constructor
+      · rintro (h1 | h1 | h1)
+        · exact .inr (.inl h1)
+        · exact .inl h1
+        · exact .inr (.inr h1)
+      · rintro (h1 | h1 | h1)
+        · exact .inr (.inl h1)
+        · exact .inl h1
+        · exact .inr (.inr h1)
+
+theorem nodup_keys_pinsert (k : Name) (v : Nat) (d : PDict) (hn : (d.map Prod.fst).Nodup) :
+    ((pinsert k v d).map Prod.fst).Nodup := by
+  induction d with
+  | nil => simp [pinsert]
+  | cons kv r ih =>
+    simp only [List.map_cons, List.nodup_cons] at hn
+    unfold pinsert
+    by_cases h : kv.1 = k
+    · simp only [h, if_true, List.map_cons, List.nodup_cons]
+      exact ⟨h ▸ hn.1, hn.2⟩
+    · simp only [h, if_false, List.map_cons, List.nodup_cons]
+      refine ⟨?_, ih hn.2⟩
+      rw [mem_keys_pinsert]
+      rintro (h1 | h1)
+      · exact h h1
+      · exact hn.1 h1
+
+theorem nodup_keys_foldl_insert (c : Name × Nat → Bool) (l : PDict) (acc : PDict) (hn : (acc.map Prod.fst).Nodup) :
+    ((l.foldl (fun acc kv => if c kv then pinsert kv.1 kv.2 acc else acc) acc).map Prod.fst).Nodup := by
+  induction l generalizing acc with
+  | nil => exact hn
+  | cons kv r ih =>
+    simp only [List.foldl_cons]
+    apply ih
+    by_cases hc : c kv = true
+    · simp only [hc, if_true]; exact nodup_keys_pinsert _ _ _ hn
+    · simp only [hc]; exact hn
+
+theorem nodup_keys_flattenedLoop (fuel : Nat) (ns : Ns) (fl : List Name) (parent : PDict) :
+    ((flattenedLoop fuel ns fl parent).map Prod.fst).Nodup := by
+  unfold flattenedLoop
+  suffices h : ∀ (acc : PDict), (acc.map Prod.fst).Nodup →
+      ((fl.foldl (fun acc sym => flatInner fuel ns sym parent acc) acc).map Prod.fst).Nodup from h [] (by simp)
+  induction fl with
+  | nil => intro acc h; exact h
+  | cons s r ih =>
+    intro acc h
+    simp only [List.foldl_cons]
+    exact ih _ (nodup_keys_foldl_insert (fun kv => fitsB fuel ns kv.1 s && kv.2 != 0) parent acc h)
+
+/-- the merged prototype of the loops as written has, tag by tag, the values of the specified one -/
+theorem pget_mergeLoop_flattenedLoop (fuel : Nat) (ns : Ns) (fl : List Name) (parent : PDict)
+    (hn : (parent.map Prod.fst).Nodup) (c : PDict) :
+    pget (mergeLoop (flattenedLoop fuel ns fl parent) c) = pget (mergeInto (flattened fuel ns fl parent) c) := by
+  funext k
+  rw [pget_mergeLoop _ (nodup_keys_flattenedLoop fuel ns fl parent), pget_mergeInto,
+    pget_flattenedLoop fuel ns fl parent hn]
+
+theorem protosFromDefLoop_eq (fuel : Nat) (ns : Ns) (pd : ProtoDefs) (parent : PDict)
+    (hn : (parent.map Prod.fst).Nodup) (name : Name) :
+    (protosFromDefLoop fuel ns pd parent name).map pget = (protosFromDef fuel ns pd parent name).map pget := by
+  unfold protosFromDefLoop protosFromDef
+  cases plookup pd name with
+  | none => rfl
+  | some spec =>
+    dsimp only
+    cases spec.children with
+    | none => rfl
+    | some cs =>
+      dsimp only
+      rw [List.map_map, List.map_map]
+      apply List.map_congr_left
+      intro c _
+      exact pget_mergeLoop_flattenedLoop fuel ns spec.flatten parent hn c
+
 theorem mem_flattened (fuel : Nat) (ns : Ns) (fl : List Name) (parent : PDict) (k : Name) (v : Nat) :
     (k, v) ∈ flattened fuel ns fl parent ↔
       (k, v) ∈ parent ∧ v ≠ 0 ∧ ∃ sym, sym ∈ fl ∧ fitsB fuel ns k sym = true := by
